@@ -120,10 +120,10 @@ def variants(seed: int) -> list[dict[str, Any]]:
         {"name": "A", "hashseed": "0", "import_first": "server", "clock_base": 1.0e9, "global_seed": None,
          "via_config": False, "reverse": False},
         {"name": "B", "hashseed": "1", "import_first": "commands", "clock_base": 1.7e9 + rnd.randrange(10**6),
-         "global_seed": None, "via_config": True, "reverse": False},
+         "global_seed": None, "via_config": True, "reverse": False, "pace": 4.0},
         {"name": "C", "hashseed": str(rnd.randrange(2, 2**32 - 1)), "import_first": "server",
          "clock_base": 2.0e9 + rnd.randrange(10**6), "global_seed": rnd.randrange(1, 2**31), "via_config": False,
-         "reverse": True},
+         "reverse": True, "pace": 0.3},
     ]
 
 
